@@ -297,6 +297,12 @@ def Listener.popDeferred (l : Listener) (addr : Nat) : Listener :=
 def Listener.cancelTimer (l : Listener) (addr : Nat) : Listener :=
   { l with timers := l.timers.filter (fun t => !(t.addr == addr)) }
 
+/-- `handle_query_or_defer` for a truncated packet that is not yet deferred: store it, cancel the
+address's timer, arm a new one `d` ms ahead -/
+def Listener.defer (l : Listener) (t : Int) (addr port : Nat) (p : Pkt) (d : Int) : Listener :=
+  let lis := (l.setDeferred addr (l.deferredOf addr ++ [p])).cancelTimer addr
+  { lis with timers := lis.timers ++ [{ addr := addr, due := t + d, port := port }] }
+
 /-! ### the host: both queues and the listener -/
 
 structure Host where
@@ -324,6 +330,20 @@ structure StepOut where
   outs : List Out := []
   draws : List Draw := []
 
+/-- one `async_add` of `handle_assembled_query` (skipped when there is nothing to add) with its random draw -/
+def queueAdd (p : QP) (q : Queue) (clock now : Int) (answers : Dict) (draws : List Int) :
+    Except String (Queue × List Draw × List Int) :=
+  if answers.isEmpty then .ok (q, [], draws) else
+  match takeDraw drawLo drawHi draws with
+  | .error e => .error e
+  | .ok (d, rest) => .ok (q.add p clock now d answers, [Draw.mk drawLo drawHi d], rest)
+
+/-- the datagrams `handle_assembled_query` sends at once -/
+def immediateOuts (qa : QA) (addr port id : Nat) (ucastSource : Bool) : List Out :=
+  (if qa.ucast.isEmpty then [] else
+    [Out.ucast addr port id (Gen.Reply.ans_echo_questions ucastSource) qa.ucast.keys (additionalsOf qa.ucast)])
+  ++ (if qa.mcastNow.isEmpty then [] else [Out.ofMcast qa.mcastNow])
+
 /-- `handle_assembled_query` at loop time `clock` -/
 def Host.assemble (h : Host) (clock : Int) (pkts : List Pkt) (addr port : Nat) (seen : SeenMap) (draws : List Int) :
     Except String (StepOut × List Int) :=
@@ -333,19 +353,15 @@ def Host.assemble (h : Host) (clock : Int) (pkts : List Pkt) (addr port : Nat) (
     let ucastSource := Gen.Reply.ucast_source port
     match asyncResponse pkts ucastSource seen with
     | none => .ok ({ host := h }, draws)
-    | some qa => do
-      let outs1 := if qa.ucast.isEmpty then [] else
-        [Out.ucast addr port first.id (Gen.Reply.ans_echo_questions ucastSource) qa.ucast.keys (additionalsOf qa.ucast)]
-      let outs2 := if qa.mcastNow.isEmpty then [] else [Out.ofMcast qa.mcastNow]
-      let (h1, dr1, draws1) ←
-        if qa.mcastAgg.isEmpty then pure (h, [], draws) else do
-          let (d, rest) ← takeDraw drawLo drawHi draws
-          pure ({ h with outQ := h.outQ.add outQP clock first.now d qa.mcastAgg }, [Draw.mk drawLo drawHi d], rest)
-      let (h2, dr2, draws2) ←
-        if qa.mcastLast.isEmpty then pure (h1, [], draws1) else do
-          let (d, rest) ← takeDraw drawLo drawHi draws1
-          pure ({ h1 with delayQ := h1.delayQ.add delayQP clock first.now d qa.mcastLast }, [Draw.mk drawLo drawHi d], rest)
-      pure ({ host := h2, outs := outs1 ++ outs2, draws := dr1 ++ dr2 }, draws2)
+    | some qa =>
+      match queueAdd outQP h.outQ clock first.now qa.mcastAgg draws with
+      | .error e => .error e
+      | .ok (oq, dr1, draws1) =>
+        match queueAdd delayQP h.delayQ clock first.now qa.mcastLast draws1 with
+        | .error e => .error e
+        | .ok (dq, dr2, draws2) =>
+          .ok ({ host := { h with outQ := oq, delayQ := dq }, outs := immediateOuts qa addr port first.id ucastSource,
+                 draws := dr1 ++ dr2 }, draws2)
 
 def tcLo : Int := (Gen.tcDelayRandomInterval.getD 0 0 : Nat)
 def tcHi : Int := (Gen.tcDelayRandomInterval.getD 1 0 : Nat)
@@ -396,6 +412,7 @@ def Host.step (h : Host) (e : Ev) : Except String StepOut :=
       match kind with
       | .invalid | .response => if draws.isEmpty then .ok { host := h } else .error "unused-draw"
       | .query p =>
+        if p.now ≠ t then .error "packet-not-stamped-with-its-arrival" else
         if Gen.Reply.l_not_truncated p.truncated then do
           let (r, rest) ← h.respond t (some p) addr port seen draws
           if rest.isEmpty then pure r else .error "unused-draw"
@@ -406,9 +423,7 @@ def Host.step (h : Host) (e : Ev) : Except String StepOut :=
           else do
             let (d, rest) ← takeDraw tcLo tcHi draws
             if !rest.isEmpty then .error "unused-draw" else
-            let lis := (h.lis.setDeferred addr (dl ++ [p])).cancelTimer addr
-            let lis := { lis with timers := lis.timers ++ [{ addr := addr, due := t + d, port := port }] }
-            pure { host := { h with lis := lis }, draws := [Draw.mk tcLo tcHi d] }
+            pure { host := { h with lis := h.lis.defer t addr port p d }, draws := [Draw.mk tcLo tcHi d] }
   | .tcfire t addr seen draws =>
     match h.lis.timers.find? (fun tm => tm.addr == addr) with
     | none => .error "no-such-timer"
